@@ -524,6 +524,13 @@ func finish(e *Engine, res *checkResult, stats *solveStats, t0 time.Time, work s
 	if lv, ok := res.extra["level"].(string); ok {
 		level = lv
 		delete(cov, "level")
+	} else if cat, text := manifestLevel(vdir, p); cat != "" && cat != "proof" {
+		// the claimed level is declared in MANIFEST.json (e.g. "other" for a
+		// proof that covers only part of the property)
+		level = cat
+		if _, ok := cov["explanation"]; !ok {
+			cov["explanation"] = "contract proofs of the functions listed under functions_under_contract cover part of the property: " + text
+		}
 	}
 	if level == "other" {
 		if _, ok := cov["explanation"]; !ok {
@@ -990,4 +997,31 @@ func strs(v any) []string {
 		return l
 	}
 	return nil
+}
+
+// manifestLevel: level_claimed.category and text of property p in MANIFEST.json.
+func manifestLevel(vdir, p string) (string, string) {
+	data, err := os.ReadFile(filepath.Join(vdir, "MANIFEST.json"))
+	if err != nil {
+		return "", ""
+	}
+	var m struct {
+		Checks []struct {
+			PropertyID   string `json:"property_id"`
+			LevelClaimed struct {
+				Category string `json:"category"`
+				Text     string `json:"text"`
+			} `json:"level_claimed"`
+			LevelNote string `json:"level_note"`
+		} `json:"checks"`
+	}
+	if json.Unmarshal(data, &m) != nil {
+		return "", ""
+	}
+	for _, c := range m.Checks {
+		if c.PropertyID == p {
+			return c.LevelClaimed.Category, c.LevelClaimed.Text + " NOT COVERED / ASSUMED: " + c.LevelNote
+		}
+	}
+	return "", ""
 }
